@@ -238,6 +238,7 @@ pub fn eval_mux(c: &MuxCase) -> Outcome {
     let mut vcodec_name = if c.codec_given { Some(VNAMES[codec as usize][c.codec_name as usize % VNAMES[codec as usize].len()].to_string()) } else { None };
     let mut extra: Vec<String> = Vec::new();
     let mut write_video_file = true;
+    let mut acodec_override: Option<String> = None;
     let mut expect_fail_reason = "";
     match c.invalid {
         0 => {}
@@ -294,8 +295,12 @@ pub fn eval_mux(c: &MuxCase) -> Outcome {
             }
             expect_fail_reason = "missing video parameter";
         }
+        12 if adata.is_some() && c.hex_style & 8 != 0 => {
+            acodec_override = Some(["mp3", "aac\u{2013}he", "aac\u{e9}", "AAC\u{ff0d}MAIN", "\u{65e5}\u{672c}\u{8a9e}", "opus\u{1f600}"][(c.hex_style as usize / 16) % 6].to_string());
+            expect_fail_reason = "unknown audio codec";
+        }
         12 => {
-            vcodec_name = Some(["h266", "mpeg2", "", "h264x"][(c.hex_style % 4) as usize].to_string());
+            vcodec_name = Some(["h266", "mpeg2", "", "h264x", "h26\u{ff14}", "av\u{e9}1", "vp\u{2013}9"][(c.hex_style % 7) as usize].to_string());
             expect_fail_reason = "unknown video codec";
         }
         13 => {
@@ -399,7 +404,10 @@ pub fn eval_mux(c: &MuxCase) -> Outcome {
     let rate_overridden = c.invalid == 17 && adata.is_some();
     let channels_overridden = c.invalid >= 20 && adata.is_some();
     if let Some(k) = audio_kind {
-        if c.audio_codec_given {
+        if let Some(name) = &acodec_override {
+            args.push("--audio-codec".into());
+            args.push(name.clone());
+        } else if c.audio_codec_given {
             args.push("--audio-codec".into());
             args.push(ANAMES[k as usize][c.audio_name as usize % ANAMES[k as usize].len()].to_string());
         }
